@@ -94,6 +94,13 @@ def c17_witness(role):
                  {"outcome": "ok", "event_has": ["after", "out"], "event_eq": {"out": "Null", "a": {"Integer": "5"}}}, {}),
                 ({"source": "x = %\n.out = x\n.after = true\n", "event": {"a": 5}, "faults": {"get": [1]}},
                  {"outcome": "ok", "event_has": ["after", "out"], "event_eq": {"out": "Null", "a": {"Integer": "5"}}}, {})]
+    if "AssignVariant" in role:
+        out = []
+        for src, ev in ((".parsed, err = parse_json(.message)\n.after = true\n", {"message": "{"}), ("%parsed, err = parse_json(.message)\n.after = true\n", {"message": "{"}),
+                        (".x = 1\n.after = true\n", {"a": 5}), (".parsed, err = parse_json(.message)\n.after = true\n", {"message": "{}"})):
+            for k in (0, 1):
+                out.append(({"source": src, "event": ev, "faults": {"insert": [k]}}, {"outcome": "ok"}, {}))
+        return out
     if "AssignTarget[External]" in role:
         spec = {"source": ".x = 1\n.after = true\n", "event": {"a": 5}, "faults": {"insert": [0]}}
         exp = {"outcome": "ok", "event_has": ["after"], "event_lacks": ["x"], "event_eq": {"a": {"Integer": "5"}}}
